@@ -38,8 +38,14 @@ func pathD(v ssa.Value, d int) string {
 		}
 		return x.Comment + "@" + x.Name()
 	case *ssa.FieldAddr:
+		if isPromotedHop(x.X.Type(), x.Field) {
+			return pathD(x.X, d+1)
+		}
 		return pathD(x.X, d+1) + "." + fieldName(x.X.Type(), x.Field)
 	case *ssa.Field:
+		if isPromotedHop(x.X.Type(), x.Field) {
+			return pathD(x.X, d+1)
+		}
 		return pathD(x.X, d+1) + "." + fieldName(x.X.Type(), x.Field)
 	case *ssa.IndexAddr:
 		return pathD(x.X, d+1) + "[" + pathD(x.Index, d+1) + "]"
@@ -252,7 +258,20 @@ func resolveFuncValue(v ssa.Value, d int) *ssa.Function {
 								return
 							}
 							f, _ := mc.Fn.(*ssa.Function)
-							if f == nil || strings.HasSuffix(f.Name(), "$bound") || (only != nil && only != f) {
+							if f != nil && strings.HasSuffix(f.Name(), "$bound") {
+								// a bound method value kept in the field (wait: eg.Wait): the method itself (its receiver is the
+								// bound one; callers that need it read the closure's binding)
+								var target *ssa.Function
+								for _, tb := range f.Blocks {
+									for _, tin := range tb.Instrs {
+										if tc, ok := tin.(*ssa.Call); ok && target == nil {
+											target = tc.Call.StaticCallee()
+										}
+									}
+								}
+								f = target
+							}
+							if f == nil || (only != nil && only != f) {
 								bad = true
 								return
 							}
@@ -1120,4 +1139,18 @@ func stripConvs(v ssa.Value) ssa.Value {
 			return v
 		}
 	}
+}
+
+// isPromotedHop: field i of struct type t is an embedded struct held by value: its fields are promoted (l.front IS
+// l.ends.front), so access paths leave the hop out and read the same with or without the grouping.
+func isPromotedHop(t types.Type, i int) bool {
+	if p, ok := t.Underlying().(*types.Pointer); ok {
+		t = p.Elem()
+	}
+	s, ok := t.Underlying().(*types.Struct)
+	if !ok || i >= s.NumFields() || !s.Field(i).Embedded() {
+		return false
+	}
+	_, isStruct := s.Field(i).Type().Underlying().(*types.Struct)
+	return isStruct
 }
